@@ -77,6 +77,15 @@ CHECKS.update({
    note="free-running underneath (ttrpc goroutines); a call is reported stuck after 6 s against a 300 ms registration timeout; violations are re-executed before they are believed; whether a start that never established a session produces a notification is left open by the statement and not checked"),
 })
 
+CHECKS.update({
+ "C18": dict(level="fault_enumeration", ref="4 C18", technique="exhaustive enumeration of configurations (plugin directory content x drop-in file pairs) and of process failure-mode vectors with real processes launched by the real runtime",
+   text="The harness binary doubles as a probe plugin: hard-linked into a scratch plugin directory as NN-<mode>-<tag> it reports its environment, the descriptors it inherited (those without close-on-exec, read with raw system calls before anything else) and the configuration it receives, then behaves per mode (ok, exits at once, never registers, fails synchronization, dies after synchronization, hangs in a handler; or a non-binary executable). Configurations: drop-in selection {none, idx-name.conf, name.conf, both} for two names; subsets of {two executables, a non-executable, a sub-directory, a third executable}; every failure mode ahead of / behind a healthy plugin and pairs of modes around two healthy plugins (thorough: all subsets, all pairs). Oracle: launched exactly once, exactly the three environment variables, only descriptors 0-3 (3 = socket), configuration = idx-name.conf else name.conf else empty, healthy plugins synchronized and served every event in index order whatever the others do, every launched process is gone (or a zombie) after drop / Stop - the probes never exit on their own when the connection goes away.",
+   note="registration / request timeouts 400 ms; zombies are information only; executables whose names do not parse are outside the statement; violations are re-executed before they are believed"),
+ "C20": dict(level="model_checking", ref="4 C20", technique="bounded-exhaustive input enumeration of pod annotation sets through the real plugin binaries (built from the working tree, launched as pre-installed plugins) against the reference model refanno",
+   text="plugins/device-injector and plugins/ulimit-adjuster are built at check time and launched by one long-lived real Adaptation. For each annotation family (devices, mounts, CDI devices, ulimits) every assignment of {absent, valid A, valid B, malformed} to the keys {container.c, container.c1, container.other, pod scope, bare key} (4^5) for the container names c, c1 (c is its prefix), other (quick: one rotating name per assignment); every pair of families with independent scopes {absent, container, pod, bare} x {valid, malformed}; ulimit type spellings (upper/lower/mixed case, with/without prefix, unknown, empty) x (soft, hard) orders. Oracle: the adjustment equals the field-by-field conversion of the payload under the most specific key naming this container (injector: container > pod > bare; adjuster: container only, names normalised); malformed / unknown type / hard < soft fail the request with no response.",
+   note="input-space exploration with representative payloads (two valid shapes and one malformed per family); real processes and sockets underneath"),
+})
+
 NOT_YET = {}
 
 def main():
